@@ -389,7 +389,11 @@ class C01(Check):
             bound = None   # decided below: restrict deviations to the composed phase
 
         if case["kind"] == "one-shape" or "choices" in case:
-            ctx, obs = run_once(run, case["choices"])
+            if case["kind"] == "compose":
+                ph0 = case["phase"]
+                ctx, obs = run_once(lambda c: run(_OnlyPhase(c, ph0)), case["choices"])
+            else:
+                ctx, obs = run_once(run, case["choices"])
             self.judge(s, exp, ctx, obs, stats, vs, case)
             return vs
 
